@@ -44,7 +44,7 @@ func exec(caseStr string) (obs string) {
 			obs = "panic " + sanitize(fmt.Sprint(r))
 		}
 	}()
-	return withWatchdog(4*patient(), func() string {
+	return withWatchdog(3*patient(), func() string {
 		switch t[0] {
 		case "disp":
 			return runDisp(t)
@@ -95,36 +95,30 @@ func suspect(obs string) bool {
 	return false
 }
 
-// execPatient runs a case; a wait-dependent verdict is re-run alone up to three times with the
-// patience doubled and is reported only if it shows up every time.
+// execPatient runs a case; a wait-dependent verdict is re-run once, alone, with doubled patience and
+// is reported only if it shows up again; the first confirmed one ends the run.
 func execPatient(caseStr string) string {
 	patience.Store(1)
 	obs := exec(caseStr)
 	if !suspect(obs) {
 		return obs
 	}
+	// re-run once, alone, with doubled patience: a verdict that only reflects a slow machine goes away
 	timeoutsRetried++
-	tries := 3
-	if timeoutsConfirmed > 0 {
-		tries = 1 // the tree hangs or leaks for real: do not spend the full budget on every case
-	}
+	time.Sleep(200 * time.Millisecond) // let stray goroutines of the first attempt finish
 	patience.Store(2)
-	defer patience.Store(1)
-	for try := 0; try < tries; try++ {
-		time.Sleep(200 * time.Millisecond) // let stray goroutines of the previous attempt finish
-		again := exec(caseStr)
-		if !suspect(again) {
-			return again
-		}
-		obs = again
+	again := exec(caseStr)
+	patience.Store(1)
+	if !suspect(again) {
+		return again
 	}
-	timeoutsConfirmed++
-	return obs
+	timeoutsConfirmed++ // confirmed: it is reported, and the run ends here (see emit)
+	return again
 }
 
 func emit(out *vc.Out, key, caseStr string) {
-	if timeoutsConfirmed >= 3 {
-		return // three confirmed hangs/leaks are reported; the rest of the run would only wait
+	if timeoutsConfirmed >= 1 {
+		return // a confirmed hang/leak has been reported; on such a tree the rest of the run would only wait
 	}
 	t0 := time.Now()
 	obs := execPatient(caseStr)
@@ -370,7 +364,7 @@ func gen(out *vc.Out, r *vc.Rand, thorough bool) {
 		emit(out, "", fmt.Sprintf("cst a %d %d th %d %s s %d %s rep 1 %s", r.Intn(3)*r.Intn(5000), r.Intn(2)*r.Intn(5000), n, strings.Join(kinds, " "), l, strings.TrimSpace(joinInts(sc)), ms()))
 	}
 
-	// bat: histories of Close / late attach (each side attached only while its field is empty), always
+	// bat: histories of Close / late or duplicate attach (a source is re-attached only while its field is empty), always
 	// ended by the last Close; every history of length ≤ 4 over {c, t, s, ct, cs, cc}, then longer random ones
 	batOps := []string{"c", "t", "s", "ct", "cs", "cc"}
 	var batHist func(prefix []string, srcSet, tgtSet bool, depth int)
@@ -388,20 +382,14 @@ func gen(out *vc.Out, r *vc.Rand, thorough bool) {
 			case "c", "cc":
 				s2, t2 = false, false
 			case "t":
-				if tgtSet {
-					continue
-				}
-				t2 = true
+				t2 = true // a duplicate target attach is turned away and closed by the setter
 			case "s":
 				if srcSet {
 					continue
 				}
 				s2 = true
 			case "ct":
-				if tgtSet {
-					continue
-				}
-				s2, t2 = false, true // the attach may land after the racing Close
+				s2, t2 = false, true // the attach may land before the racing Close tears down
 			case "cs":
 				if srcSet {
 					continue
